@@ -1,5 +1,5 @@
 \* MIXED GRANULARITY x post-processing and several files: <= 2 records of 4 units at 0, 3 (units of 1 / 2 bytes), split over
-\* two files with (offset) 2, x -S none / L2 / B3 x -s x -l 0 / 90 x -e x window 1-4 / automatic x ALL / ODD
+\* two files with (offset) 2, x -S none / L2 / B3 x -s x -l 90 x -e x window 1-4 / automatic x ALL / ODD
 CONSTANTS
   Dev = {}
   MaxRecs = 2
@@ -8,7 +8,7 @@ CONSTANTS
   GranSet = {1, 2}
   EntryAddrs = {}
   Offsets = {2}
-  FillSet = {0, 90}
+  FillSet = {90}
   SumOpts = {TRUE, FALSE}
   SegOpts = {1}
   CpuSegs <- CS_One
